@@ -54,12 +54,27 @@ filter (DBusConnection *c, DBusMessage *m, void *data)
   return DBUS_HANDLER_RESULT_HANDLED;
 }
 
+/* C08 (server-application layer): with VERIF_HS_USERFN=1 the server installs a unix-user function that lets every uid in
+ * and records what it was called with; VERIF_HS_ANON=1 enables anonymous access */
+static int userfn_calls;
+static unsigned long userfn_last_uid;
+
+static dbus_bool_t
+accept_any_user (DBusConnection *c, unsigned long uid, void *data)
+{
+  userfn_calls++;
+  userfn_last_uid = uid;
+  return TRUE;
+}
+
 static void
 new_conn (DBusServer *server, DBusConnection *c, void *data)
 {
   if (server_conn != NULL) return;
   server_conn = dbus_connection_ref (c);
-  dbus_connection_set_allow_anonymous (c, FALSE);
+  dbus_connection_set_allow_anonymous (c, getenv ("VERIF_HS_ANON") != NULL);
+  if (getenv ("VERIF_HS_USERFN") != NULL)
+    dbus_connection_set_unix_user_function (c, accept_any_user, NULL, NULL);
   if (!blocking_mode) test_connection_setup (ctx, c);
   if (!dbus_connection_add_filter (c, filter, NULL, NULL)) exit (3);
 }
@@ -175,10 +190,19 @@ do_stream (const char *path, const unsigned char *buf, long n, const char *chunk
   run_idle ();
   fclose (msgf);
   of = open_memstream (&out, &outlen);
-  fprintf (of, "{\"auth\":%d,\"connected\":%d,\"local_disconnected\":%d,\"sent\":%ld,\"epipe\":%d,\"msgs\":[%s]}",
-           server_conn ? (int) dbus_connection_get_is_authenticated (server_conn) : -1,
-           server_conn ? (int) dbus_connection_get_is_connected (server_conn) : -1,
-           saw_local_disconnect, off, client_closed_by_peer, msgbuf ? msgbuf : "");
+  {
+    unsigned long seen_uid = 0;
+    int has_uid = server_conn ? (int) dbus_connection_get_unix_user (server_conn, &seen_uid) : -1;
+    fprintf (of, "{\"auth\":%d,\"connected\":%d,\"local_disconnected\":%d,\"sent\":%ld,\"epipe\":%d,"
+             "\"anon\":%d,\"has_uid\":%d,\"uid\":%lu,\"userfn_calls\":%d,\"userfn_uid_is_unset\":%d,\"userfn_uid\":%lu,\"msgs\":[%s]}",
+             server_conn ? (int) dbus_connection_get_is_authenticated (server_conn) : -1,
+             server_conn ? (int) dbus_connection_get_is_connected (server_conn) : -1,
+             saw_local_disconnect, off, client_closed_by_peer,
+             server_conn ? (int) dbus_connection_get_is_anonymous (server_conn) : -1, has_uid, has_uid > 0 ? seen_uid : 0,
+             userfn_calls, userfn_calls > 0 && userfn_last_uid == DBUS_UID_UNSET, userfn_calls > 0 && userfn_last_uid != DBUS_UID_UNSET ? userfn_last_uid : 0,
+             msgbuf ? msgbuf : "");
+    userfn_calls = 0;
+  }
   fclose (of);
   free (msgbuf); msgbuf = NULL;
   close (fd);
